@@ -218,8 +218,14 @@ func main() {
 	if v := os.Getenv("VERIF_REPO"); v != "" {
 		repoDir = v
 	}
+	if len(os.Args) >= 2 && os.Args[1] == "selftest-determinism" {
+		os.Exit(selftestDeterminism(os.Args[2:]))
+	}
 	if len(os.Args) < 3 {
 		fatal2("usage: zcheck <property> quick|thorough | zcheck <property> --replay <file>")
+	}
+	if os.Args[1] == "selftest-determinism" {
+		os.Exit(selftestDeterminism(os.Args[2:]))
 	}
 	id := os.Args[1]
 	pc, ok := props[id]
@@ -698,4 +704,84 @@ func tail(s string, n int) string {
 		return s[len(s)-n:]
 	}
 	return s
+}
+
+// selftestDeterminism: for each property, the same run indices are executed
+// by several processes at GOMAXPROCS 1, 4 and 16 (three repetitions each);
+// the per-run digests (fingerprint of every scheduling decision and of the
+// property's state trace, step count, violation signature) must be identical.
+func selftestDeterminism(ids []string) int {
+	if len(ids) == 0 {
+		for id := range props {
+			ids = append(ids, id)
+		}
+		sort.Strings(ids)
+	}
+	n := int64(3000)
+	if v := os.Getenv("VERIF_RUNS"); v != "" {
+		n, _ = strconv.ParseInt(v, 10, 64)
+	}
+	bad := 0
+	for _, id := range ids {
+		pc := props[id]
+		workDir := filepath.Join(verifDir, "work", fmt.Sprintf("det-%s-%d", id, os.Getpid()))
+		os.MkdirAll(workDir, 0o755)
+		bin := build(workDir, pc.Race)
+		type job struct {
+			procs, rep int
+			sum    string
+		}
+		var jobs []*job
+		for _, p := range []int{1, 4, 16} {
+			for rep := 0; rep < 3; rep++ {
+				jobs = append(jobs, &job{procs: p, rep: rep})
+			}
+		}
+		var wg sync.WaitGroup
+		for _, j := range jobs {
+			wg.Add(1)
+			go func(j *job) {
+				defer wg.Done()
+				logPath := filepath.Join(workDir, fmt.Sprintf("ev-%d-%d.log", j.procs, j.rep))
+				cmd := exec.Command(bin, "-test.run", "TestWorker", "-test.timeout", "0")
+				cmd.Env = append(os.Environ(), "ZSIM_PROP="+id, "ZSIM_TIER=quick", "ZSIM_BASE=77", "ZSIM_FROM=0", "ZSIM_TO="+strconv.FormatInt(n, 10),
+					"ZSIM_EVENTLOG="+logPath, "ZSIM_OUT="+logPath+".json", "ZSIM_MAXVIOL=1000000", "ZSIM_TMP="+workDir,
+					"ZSIM_KNOWN_FILE="+filepath.Join(verifDir, "known_findings.json"),
+					"GOMAXPROCS="+strconv.Itoa(j.procs), "GORACE=halt_on_error=0")
+				cmd.Run()
+				b, _ := os.ReadFile(logPath)
+				j.sum = fmt.Sprintf("%x/%d", fnv64(b), bytes.Count(b, []byte("\n")))
+			}(j)
+		}
+		wg.Wait()
+		same := true
+		for _, j := range jobs {
+			if j.sum != jobs[0].sum {
+				same = false
+			}
+		}
+		if same && !strings.HasSuffix(jobs[0].sum, "/0") {
+			fmt.Printf("determinism %s: OK (%d runs x 9 processes, GOMAXPROCS 1/4/16, digest %s)\n", id, n, jobs[0].sum)
+			os.RemoveAll(workDir)
+		} else {
+			bad++
+			fmt.Printf("determinism %s: DIVERGED\n", id)
+			for _, j := range jobs {
+				fmt.Printf("  GOMAXPROCS=%d rep %d: %s\n", j.procs, j.rep, j.sum)
+			}
+			fmt.Printf("  logs kept in %s\n", workDir)
+		}
+	}
+	if bad > 0 {
+		return 1
+	}
+	return 0
+}
+
+func fnv64(b []byte) uint64 {
+	h := uint64(14695981039346656037)
+	for _, c := range b {
+		h = (h ^ uint64(c)) * 1099511628211
+	}
+	return h
 }
